@@ -20,12 +20,12 @@ def RefHyp (f : Nat) (rec : Runner P V) (ev : Env V → Graph P V → List V →
     wfG f g' = true →
     (∀ n, n ∈ g'.allDefs → getInput E' n = none ∧ look σ' n = none) →
     headOK E' →
+    (∀ n, look (headByVal E') n ≠ none → g'.capNames.count n ≤ 1) →
     (∀ n, n ∉ g'.defs → Needed g' g'.ops n → getInput E' n = look σ' n) →
     rec g' args E' = ev σ' g' (args.map (·.2))
 
 /-- Per-operator part of `wfG`. -/
 def OpWf (f : Nat) (g : Graph P V) (op : Op P V) : Prop :=
-  (∀ n, n ∈ op.capNames → g.caps.contains n = false) ∧
   match op with
   | .prim _ _ _ => True
   | .ifOp _ t e _ =>
@@ -41,11 +41,10 @@ theorem wfG_succ (f : Nat) (g : Graph P V) (h : wfG (f + 1) g = true) :
   refine ⟨h1, h2, fun n hn => by simpa using h3 n hn, ?_⟩
   intro op hop
   have := h4 op hop
-  refine ⟨fun n hn => by simpa using this.1 n hn, ?_⟩
   cases op with
   | prim k ins out => trivial
-  | ifOp c t e outs => simpa [Bool.and_eq_true, and_assoc] using this.2
-  | loop trip cond car body outs => simpa [Bool.and_eq_true] using this.2
+  | ifOp c t e outs => simpa [OpWf, Bool.and_eq_true, and_assoc] using this
+  | loop trip cond car body outs => simpa [OpWf, Bool.and_eq_true] using this
 
 theorem disjointB_spec (a b : List Nat) (h : disjointB a b = true) (n : Nat) (hn : n ∈ a) : n ∉ b := by
   simp only [disjointB, List.all_eq_true] at h
@@ -141,23 +140,147 @@ theorem child_sees_parent_locals (g : Graph P V) (views : Env V) (st : St V) (in
     have h2 := extractByVal_not_key g.caps ins ds st n h hc
     simp [h1, h2]
 
+/-! ## re-capture never happens: a capture the graph forwards is named twice -/
+
+theorem erase_eq_self : ∀ (σ : Env V) (n : Nat), look σ n = none → erase σ n = σ
+  | [], _, _ => rfl
+  | (m, v) :: rest, n, h => by
+    by_cases hm : m = n
+    · simp [look_cons, hm] at h
+    · simp only [look_cons, hm, if_false] at h
+      have ih := erase_eq_self rest n h
+      unfold erase at ih ⊢
+      have : ((m, v).1 != n) = true := by simpa using hm
+      simp [List.filter, this, ih]
+
+theorem takeInput_absent (env : List (Frame V)) (n : Nat) (h : look (headByVal env) n = none) :
+    takeInput env n = (none, env) := by
+  cases env with
+  | nil => rfl
+  | cons f ps =>
+    simp only [headByVal] at h
+    simp only [takeInput]
+    split
+    · rw [h, erase_eq_self _ _ h]
+    · rfl
+
+theorem takeValue_env_absent (gc : List Nat) (st : St V) (n : Nat)
+    (h : gc.contains n = false ∨ look (headByVal st.env) n = none) :
+    (takeValue gc st n).2.env = st.env ∧
+      (look st.temp n = none → (takeValue gc st n).1 = none) := by
+  unfold takeValue
+  split
+  · split
+    · rename_i v hv
+      exact ⟨rfl, fun h' => by rw [hv] at h'; simp at h'⟩
+    · rcases h with h | h
+      · have h' : n ∉ gc := by simpa using h
+        simp [h']
+      · split
+        · rw [takeInput_absent _ _ h]; exact ⟨rfl, fun _ => rfl⟩
+        · exact ⟨rfl, fun _ => rfl⟩
+  · exact ⟨rfl, fun _ => rfl⟩
+
+/-- Hypothesis under which extraction cannot take anything out of the enclosing environment. -/
+def NoEnvTake (gc ins : List Nat) (env : List (Frame V)) (ds : List Nat) : Prop :=
+  ∀ n, n ∈ ds → ins.contains n = false → gc.contains n = false ∨ look (headByVal env) n = none
+
+theorem extractByVal_env' (gc ins : List Nat) : ∀ (ds : List Nat) (st : St V),
+    NoEnvTake gc ins st.env ds → (extractByVal gc ins st ds).1.env = st.env
+  | [], _, _ => rfl
+  | n :: ns, st, h => by
+    by_cases hin : ins.contains n = true
+    · have : (extractByVal gc ins st (n :: ns)) = extractByVal gc ins st ns := by
+        conv => lhs; unfold extractByVal
+        rw [if_pos hin]
+      rw [this]
+      exact extractByVal_env' gc ins ns st (fun x hx => h x (List.mem_cons_of_mem _ hx))
+    · have hin' : ins.contains n = false := by simpa using hin
+      have hte := (takeValue_env_absent gc st n (h n List.mem_cons_self hin')).1
+      rw [extractByVal_cons gc ins st n ns hin',
+        extractByVal_env' gc ins ns _ (by rw [hte]; exact fun x hx => h x (List.mem_cons_of_mem _ hx)),
+        hte]
+
+/-- …and then every by-value capture came out of `temp_values`. -/
+theorem extractByVal_from_temp (gc ins : List Nat) : ∀ (ds : List Nat) (st : St V) (p : Nat × V),
+    NoEnvTake gc ins st.env ds → p ∈ (extractByVal gc ins st ds).2 → look st.temp p.1 ≠ none
+  | [], _, _, _, h => by simp [extractByVal] at h
+  | n :: ns, st, p, hne, h => by
+    unfold extractByVal at h
+    split at h
+    · exact extractByVal_from_temp gc ins ns st p (fun x hx => hne x (List.mem_cons_of_mem _ hx)) h
+    · rename_i hin
+      have hin' : ins.contains n = false := by simpa using hin
+      obtain ⟨hte, hnone⟩ := takeValue_env_absent gc st n (hne n List.mem_cons_self hin')
+      have hsub : ∀ m, look (takeValue gc st n).2.temp m ≠ none → look st.temp m ≠ none := by
+        intro m hm
+        rcases takeValue_temp_effect gc st n m with h' | ⟨_, h', _⟩
+        · rw [← h']; exact hm
+        · exact absurd h' hm
+      split at h
+      · rename_i v st' htv
+        rw [htv] at hte hnone hsub
+        simp only [List.mem_append, List.mem_singleton] at h
+        rcases h with h | h
+        · exact hsub p.1 (extractByVal_from_temp gc ins ns st' p
+            (by rw [hte]; exact fun x hx => hne x (List.mem_cons_of_mem _ hx)) h)
+        · subst h
+          intro hn
+          have := hnone hn
+          simp at this
+      · rename_i st' htv
+        rw [htv] at hte hsub
+        exact hsub p.1 (extractByVal_from_temp gc ins ns st' p
+          (by rw [hte]; exact fun x hx => hne x (List.mem_cons_of_mem _ hx)) h)
+
+theorem count_capNamesOps_pos : ∀ (ops : List (Op P V)) (op : Op P V) (n : Nat), op ∈ ops →
+    n ∈ op.capNames → 0 < (capNamesOps ops).count n := by
+  intro ops op n hop hn
+  exact List.count_pos_iff.mpr (mem_capNamesOps ops op n hop hn)
+
+/-- A capture of `g` that one of `g`'s operators captures again is named at least twice in
+`g.capture_names()`. -/
+theorem recapture_count (g : Graph P V) (op : Op P V) (hop : op ∈ g.ops) (n : Nat)
+    (hc : n ∈ g.caps) (hn : n ∈ op.capNames) : 2 ≤ g.capNames.count n := by
+  cases g with
+  | mk i c ops o =>
+    simp only [Graph.capNames, List.count_append]
+    have h1 : 0 < (Graph.caps (.mk i c ops o : Graph P V)).count n := List.count_pos_iff.mpr hc
+    have h2 := count_capNamesOps_pos ops op n hop hn
+    omega
+
+/-- Under the by-value-once invariant, extraction for an operator of `g` never takes a value out of
+the enclosing environment. -/
+theorem noEnvTake_of_once (g : Graph P V) (op : Op P V) (hop : op ∈ g.ops) (env : List (Frame V))
+    (hbo : ∀ n, look (headByVal env) n ≠ none → g.capNames.count n ≤ 1) :
+    NoEnvTake g.caps op.directInputs env (deps g op) := by
+  intro n hn hni
+  by_cases hc : g.caps.contains n = true
+  · right
+    have hni' : n ∉ op.directInputs := by simpa using hni
+    have hcap : n ∈ op.capNames := by
+      unfold deps at hn
+      rcases List.mem_append.mp hn with h | h
+      · exact absurd h hni'
+      · exact (List.mem_filter.mp h).1
+    have h2 := recapture_count g op hop n (by simpa using hc) hcap
+    cases hl : look (headByVal env) n with
+    | none => rfl
+    | some v =>
+      have := hbo n (by simp [hl])
+      omega
+  · left; simpa using hc
+
 /-- Facts about by-value extraction for a subgraph operator of a well-formed graph. -/
 theorem extract_facts (g : Graph P V) (op : Op P V) (st : St V)
-    (hnr : ∀ n, n ∈ op.capNames → g.caps.contains n = false) :
+    (hnr : NoEnvTake g.caps op.directInputs st.env (deps g op)) :
     let ex := extractByVal g.caps op.directInputs st (deps g op)
     ex.1.rc = st.rc ∧ ex.1.env = st.env ∧
     (∀ m, look ex.1.temp m = look st.temp m ∨
       (look ex.1.temp m = none ∧ st.rc m = 1 ∧ m ∈ deps g op)) ∧
     (∀ m, m ∈ op.directInputs → look ex.1.temp m = look st.temp m) := by
   intro ex
-  refine ⟨extractByVal_rc _ _ _ _, ?_, ?_, ?_⟩
-  · apply extractByVal_env
-    intro n hn hni
-    have hni' : n ∉ op.directInputs := by simpa using hni
-    unfold deps at hn
-    rcases List.mem_append.mp hn with h | h
-    · exact absurd h hni'
-    · exact hnr n (List.mem_filter.mp h).1
+  refine ⟨extractByVal_rc _ _ _ _, extractByVal_env' _ _ _ _ hnr, ?_, ?_⟩
   · intro m
     rcases extractByVal_temp_effect g.caps op.directInputs (deps g op) st m with h | ⟨h1, h2, h3, _⟩
     · exact Or.inl h
@@ -172,8 +295,8 @@ theorem extract_facts (g : Graph P V) (op : Op P V) (st : St V)
 theorem child_hyps (g : Graph P V) (views : Env V) (σp : Env V)
     (ctx : Ctx g views σp) (op : Op P V) (hop : op ∈ g.ops) (rest : List (Op P V))
     (st : St V) (b : Env V) (inv : Inv g views σp (op :: rest) st b)
-    (hnr : ∀ n, n ∈ op.capNames → g.caps.contains n = false)
     (sub : Graph P V) (hcap : ∀ n, n ∈ sub.capNames → n ∈ op.capNames)
+    (hcount : ∀ n, sub.capNames.count n ≤ op.capNames.count n)
     (hall : ∀ n, n ∈ sub.allDefs → n ∈ op.allDefs)
     (hdisj : disjointB sub.allDefs g.defs = true)
     (hout : ∀ n, n ∈ sub.outputs → n ∈ sub.defs) :
@@ -182,14 +305,20 @@ theorem child_hyps (g : Graph P V) (views : Env V) (σp : Env V)
                                  tempRef := ex.1.temp, byVal := ex.2 } :: ex.1.env
     (∀ n, n ∈ sub.allDefs → getInput E' n = none ∧ look (b ++ σp) n = none) ∧
     headOK E' ∧
+    (∀ n, look (headByVal E') n ≠ none → sub.capNames.count n ≤ 1) ∧
     (∀ n, n ∉ sub.defs → Needed sub sub.ops n → getInput E' n = look (b ++ σp) n) := by
   intro ex E'
+  have hnr := noEnvTake_of_once g op hop st.env inv.byvalonce
   obtain ⟨_, henv, _, _⟩ := extract_facts g op st hnr
+  have hkeytemp : ∀ n v, look ex.2 n = some v → look st.temp n ≠ none := by
+    intro n v hl
+    exact extractByVal_from_temp g.caps op.directInputs (deps g op) st (n, v) hnr
+      (mem_of_look _ _ _ hl)
   have houter : ∀ n, n ∉ g.defs → getInput E' n = getInput st.env n := by
     intro n hn
     show getInput (_ :: ex.1.env) n = _
     rw [getInput_frame_outer g views _ _ _ n hn, henv]
-  refine ⟨?_, ?_, ?_⟩
+  refine ⟨?_, ?_, ?_, ?_⟩
   · intro n hn
     have hng : n ∉ g.defs := disjointB_spec _ _ hdisj n hn
     have hga : n ∈ g.allDefs := allDefs_of_op g op hop n (hall n hn)
@@ -206,18 +335,10 @@ theorem child_hyps (g : Graph P V) (views : Env V) (σp : Env V)
     cases hl : look ex.2 n with
     | none => exact absurd hl hn
     | some v =>
-      have hmem : (n, v) ∈ ex.2 := mem_of_look _ _ _ hl
-      obtain ⟨hds, hni, _⟩ := extractByVal_keys g.caps op.directInputs (deps g op) st (n, v) hmem
-      have hgc : g.caps.contains n = false := by
-        have hni' : n ∉ op.directInputs := by simpa using hni
-        unfold deps at hds
-        rcases List.mem_append.mp hds with h | h
-        · exact absurd h hni'
-        · exact hnr n (List.mem_filter.mp h).1
+      have hgc : g.caps.contains n = false :=
+        caps_not_def g n (valueDefs_sub_defs g n (inv.keys n (hkeytemp n v hl)))
       cases ht : look st.temp n with
-      | none =>
-        have := extractByVal_not_key g.caps op.directInputs (deps g op) st n ht hgc
-        rw [hl] at this; exact absurd this (by simp)
+      | none => exact absurd ht (hkeytemp n v hl)
       | some w =>
         rcases extractByVal_visible g.caps op.directInputs (deps g op) st n w ht hgc with
           ⟨_, h2⟩ | ⟨h1, _⟩
@@ -225,6 +346,27 @@ theorem child_hyps (g : Graph P V) (views : Env V) (σp : Env V)
         · refine ⟨?_, h1⟩
           have := valueDefs_sub_defs g n (inv.keys n (by simp [ht]))
           simpa using this
+  · -- by-value once: the extracted value had count 1, so the operator names it once
+    show ∀ n, look ex.2 n ≠ none → sub.capNames.count n ≤ 1
+    intro n hn
+    cases hl : look ex.2 n with
+    | none => exact absurd hl hn
+    | some v =>
+      have hmem : (n, v) ∈ ex.2 := mem_of_look _ _ _ hl
+      obtain ⟨hds, hni, hrc1⟩ := extractByVal_keys g.caps op.directInputs (deps g op) st (n, v) hmem
+      have hvd : n ∈ g.valueDefs := inv.keys n (hkeytemp n v hl)
+      have h1 := (rc_one_no_remaining_use g op rest st inv.rc n (isValueNode_of_valueDefs g n hvd)
+        hds hrc1).1
+      have hni' : n ∉ op.directInputs := by simpa using hni
+      have hres : (g.defs.contains n || g.caps.contains n) = true := by
+        simp [valueDefs_sub_defs g n hvd]
+      have : op.capNames.count n = 1 := by
+        unfold deps at h1
+        rw [List.count_append, List.count_eq_zero.mpr hni', List.count_filter] at h1
+        · omega
+        · simp [hni', valueDefs_sub_defs g n hvd]
+      have := hcount n
+      omega
   · intro n hnd hneed
     have hcn : n ∈ op.capNames := hcap n (needed_free_in_capNames sub hout n hnd hneed)
     have hag := inv.agree n (needed_head g op rest n (Or.inr hcn))
